@@ -202,6 +202,8 @@ def main():
         "engines": [
             {"name": "tlc", "path": "/verif/lib/tlc.py", "serves_properties": sorted(CHECKS),
              "kind_free_text": "TLC 1.8 on the modules of /verif/spec (E1 state-space exploration, E2 dump generation, E3 trace validation)"},
+            {"name": "apalache", "path": "/verif/spec/apalache/DPEntryInd.tla", "serves_properties": ["C16"],
+             "kind_free_text": "Apalache 0.58: inductive invariant of the Entry contract over all integer candidate values (base case, step, refutation of the defect constant)"},
         ],
         "checks": checks,
         "notes": "One explicit TLA+ specification (/verif/spec), three engines (TLC alone; TLC-generated cases replayed into the code; recorded executions validated by TLC). See DESIGN.md.",
